@@ -232,3 +232,52 @@ check("C03",
       "Modelled, not verified: Twisted Deferred/maybeDeferred and the eventual queue's FIFO order; logging inside fail/complete is assumed not to "
       "raise; Banana parsing and the unslicer plumbing are tied by shape facts and the cut sweep, not modelled; in-memory transports, no TLS.",
       "Coq proof over an interpreter of AST-translated method bodies + trace validation (vm_compute) of real Broker pairs under byte cuts", "DESIGN.md 5/C03")
+
+check("C02",
+      "Theorems (Coq): checkObject c o = true <-> satisfies c o (declarative relation over all 13 constraint constructors); checkAllArgs spec "
+      "(no more positionals than declared, no name bound twice, every bound name declared and satisfying its constraint, every required argument "
+      "bound); for all method schemas and ARBITRARY wire trees (any type bytes, sizes, arities, forged back-references) recv_call = Invoke a kw -> "
+      "checkAllArgs ms a kw = Ok (rests on the translated dominance shape fact of Broker._doCall), hence every value a method body receives "
+      "satisfies its declared constraint. The result side is refuted on the faithful model (C02_result_refuted: four witnesses, D6, known finding) "
+      "and proved only for constraints whose token-level tasters are complete (C02_result_partial); one-call-only is refuted for strictTaster "
+      "constraints (known finding). Tie: the numeric branches of IntegerConstraint.checkObject and the integer branch of sendToken (PyLite), every "
+      "length / fullness comparison of every checkObject and Unslicer, the taster tables and their construction, Constraint.checkToken's "
+      "comparator, strictTaster / opentypes of every class, the setConstraint assertions, the UnicodeUnslicer size guard, getPositionalArgConstraint / "
+      "checkAllArgs comparators, the _doCall dominance, 'AnswerUnslicer contains no checkObject', 'ReferenceUnslicer re-checks' are translated on "
+      "every run; 350 hand-encoded call streams and 237 answer streams on a real Broker pair compared with the model by vm_compute. Direct oracle: "
+      "instrumented remote_* methods and callbacks judged by the real checkers and an independent reference semantics; a refused call errbacks with "
+      "Violation and a sibling call still works.",
+      "Values are trees (sharing only in fixed oracle cases); regexp constraints, RemoteInterface/Copyable constraints, Shared and "
+      "__ignoreUnknown__/__acceptUnknown__ are outside the model; 'a Violation leaves other calls untouched' is oracle-checked (the model has no "
+      "broker queue).",
+      "Coq proof (checkObject <-> satisfies, checkAllArgs spec, dominance shape fact) + hand-encoded token streams on a Broker pair vs model", "DESIGN.md 5/C02")
+
+check("C12",
+      "Theorems (Coq): for all constraint trees c and values o with wf c, owf o, c12_guard c o: checkObject c o = true -> the receiver's token-level "
+      "checks accept every token of slice o and deliver o (induction on c; boundaries: the 2^31 INT/LONGINT split of the translated sendToken, "
+      "bytelen n <= maxBytes from long_to_bytes_length, maxLength, maxKeys, tuple arity, UTF-8 size <= 6*maxLength); the same end to end for a "
+      "one-argument call; four refuted witnesses (ChoiceOf over OPEN-sequence alternatives = D7a, AnyStringConstraint with text, nested Optional, "
+      "Any with an int >= 2^8000: known findings). c12_guard excludes exactly those regions. Tie: as C02 (shared gen/SchemaGen.v); 447 real "
+      "callRemote calls vs send_call + recv_call, 900 checkObject differentials (inbound and outbound, also against an independent reference "
+      "semantics), 260 taste cases vs real checkToken, 50 int_token cases vs real sendToken bytes, by vm_compute. Direct oracle: if the real "
+      "outbound checkAllArgs accepts, the call is delivered with canonically equal arguments, never a Violation or a lost connection; if the sender "
+      "rejects, nothing is sent; 22 boundary cases, shared-list case, 420 generated calls built through the public schema vocabulary.",
+      "The call-level theorem covers one-argument methods (multi-argument and keyword calls by correspondence); values are trees; regexp, "
+      "RemoteInterface/Copyable constraints outside the model.",
+      "Coq induction on constraint trees over translated sendToken split / taster tables / comparators + real callRemote differentials", "DESIGN.md 5/C12")
+
+check("C16",
+      "Theorems (Coq, 7, over all permitted event sequences Start/AttemptOk/AttemptFail z/Lost/TimerExpired/Reset/Stop; exact rational arithmetic): "
+      "_active iff started and not stopped; no timer is leaked and, while active, attempts in flight + watched connections + pending timers = 1 (and "
+      "ReconnectionInfo.state names it); every delay and timer lies in [0, maxDelay*(1+jitter*Zmax)] for draws |z| <= Zmax <= 1/jitter (the bound on "
+      "the draw is necessary: C16_negative_delay_possible); after a success the next retry delay is initialDelay; while active something is always "
+      "enabled and each failure / loss / expiry schedules exactly one next activity; after Stop -- also when issued while still queued for "
+      "Tub.startService -- every later output is silent (no callback, getReference, watcher or timer) for every permitted continuation. Tie: all 10 "
+      "methods of Reconnector are translated statement by statement into the model's actions on every run (constants as exact rationals from the "
+      "literal text; pb.py call sites as shape facts; fail-closed white list for logging/info statements); ALL permitted sequences up to length 8 "
+      "(11 560; 262 690 up to length 11 in the thorough tier) plus 150 seeded long sequences are run on the real class with a fake Tub, virtual "
+      "clock and scripted normalvariate and compared inside Coq (flags, ordered outputs, delays). Direct oracle on every node plus seven real-Tub "
+      "scenarios on the in-memory network (stop before start, cut, reconnect, stop in flight, unreachable back-off, Tub.stopService).",
+      "Modelled, not verified: Twisted Deferred / DelayedCall semantics and the Tub (hand-written dispatcher), normalvariate as mu + z*sigma, "
+      "doubles as exact Q. A draw below -1/jitter (probability ~3e-17) gives a negative delay: stated, not hidden.",
+      "Coq invariant induction over the translated state machine + exhaustive enumeration of permitted sequences compared inside Coq", "DESIGN.md 5/C16")
